@@ -821,24 +821,37 @@ def unexpected(ctx, res):
     return bool(res.n_disagreements) or any(v['key'] not in known for v in res['violations'])
 
 
+def explore(ctx, res, deep):
+    fams = [('singles', single_cases()), ('pairs', pair_cases()),
+            ('queueing', queue_cases(deep)), ('throttle', throttle_cases(deep)),
+            ('paused_writer', pause_cases(deep))]
+    for name, cases in fams:
+        if unexpected(ctx, res) and name != 'singles':
+            return
+        if res['scopes'].get(name) == len(cases):
+            continue            # the deep family is the quick one: already done
+        evaluate(ctx, cases, res)
+        res['scopes'][name] = len(cases)
+    if not unexpected(ctx, res):
+        n = (60000 if ctx.tier == 'thorough' else 8000) if deep else 1500
+        evaluate(ctx, [random_case(ctx.rng) for _ in range(n)], res)
+        res['scopes']['generated'] = res['scopes'].get('generated', 0) + n
+
+
 def run(ctx):
     res = Results()
     corp = [parse_corpus(ln) for ln in corpus_lines(ctx.verif, 'C03')]
     if corp:
         evaluate(ctx, corp, res)
     res['scopes']['corpus'] = len(corp)
-    fams = [('singles', single_cases()), ('pairs', pair_cases()),
-            ('queueing', queue_cases(ctx.deep)), ('throttle', throttle_cases(ctx.deep)),
-            ('paused_writer', pause_cases(ctx.deep))]
-    for name, cases in fams:
-        if unexpected(ctx, res) and name != 'singles':
-            break
-        evaluate(ctx, cases, res)
-        res['scopes'][name] = len(cases)
-    if not unexpected(ctx, res):
-        n = (60000 if ctx.tier == 'thorough' else 8000) if ctx.deep else 1500
-        evaluate(ctx, [random_case(ctx.rng) for _ in range(n)], res)
-        res['scopes']['generated'] = n
+    explore(ctx, res, ctx.deep)
+    # A source drift / broken obligation on the quick tier: lib/vcheck.py looks at quick depth
+    # first and repeats at thorough depth only when that pass recorded no violation at all -
+    # a listed known finding counts there, and C03 has one on every run.  So go deep here.
+    if not ctx.deep and ctx.deep_reasons and ctx.tier != 'thorough' and res['violations'] \
+            and not unexpected(ctx, res):
+        explore(ctx, res, True)
+        return res.finish(RULE, exhaustive=True)
     return res.finish(RULE, exhaustive=ctx.deep)
 
 
